@@ -1,7 +1,7 @@
 (* C11 - Brutal sends at the configured rate: bounded above, never stalled.
    Property theorems only; every proof is `exact <lemma>` from proof/C11_*.v.
    Units: nanoseconds and bytes; two63 = 2^63, two64 = 2^64; mds_limit = 2^32. *)
-From Hy Require Import lib.F64 model.C11_Pacer model.C11_Brutal proof.C11_Pacer proof.C11_Brutal proof.C11_Float.
+From Hy Require Import lib.F64 model.C11_Pacer model.C11_Brutal model.C11_Calls proof.C11_Pacer proof.C11_Brutal proof.C11_Float proof.C11_Calls.
 From Coq Require Import ZArith List.
 Import ListNotations.
 Local Open Scope Z_scope.
@@ -136,3 +136,37 @@ Theorem C11_sender_drives_pacer : forall bps dis l,
   b_pacer b = set_mds (prun pacer_init (psends_of (brutal_init bps dis) l)) (b_mds b).
 Proof. exact pacer_of_brun_init. Qed.
 Print Assumptions C11_sender_drives_pacer.
+
+(* "the rate bound counts EVERY byte released through the pacing gate": OnPacketSent does not read
+   isRetransmittable (nor bytesInFlight, packetNumber).  For every sender state b, every call history
+   l with the full argument lists, every flag value r and every instant: re-flagging all sends of l
+   with r (all ack-eliciting, or none) leaves the whole sender state - pacer bucket, last send time,
+   ack rate, slots - and therefore Budget, HasPacingBudget, TimeUntilSend and the induced
+   pacer-level send history unchanged.  A packet that is not ack-eliciting is never free. *)
+Theorem C11_flag_irrelevant : forall b l r now,
+  let b1 := krun b l in
+  let b2 := krun b (map (set_flag r) l) in
+  b1 = b2 /\
+  b_budget b1 now = b_budget b2 now /\
+  has_pacing_budget b1 now = has_pacing_budget b2 now /\
+  b_time_until_send b1 = b_time_until_send b2 /\
+  ksends_of b l = ksends_of b (map (set_flag r) l).
+Proof. exact flag_irrelevant. Qed.
+Print Assumptions C11_flag_irrelevant.
+
+(* the same for ANY two histories that differ only in the arguments OnPacketSent does not read *)
+Theorem C11_unread_args_irrelevant : forall b l l',
+  same_calls l l' ->
+  krun b l = krun b l' /\ ksends_of b l = ksends_of b l'.
+Proof. exact calls_irrelevant. Qed.
+Print Assumptions C11_unread_args_irrelevant.
+
+(* C11_sender_drives_pacer for call histories with flags: the sender's pacer is the pacer-level state
+   reached by ALL its sends, and the bytes of that pacer-level history are all the bytes released
+   (ack-eliciting or not) - so `bytes_of` in C11_rate_upper_bound is `released`. *)
+Theorem C11_every_release_counts : forall bps dis l,
+  let b := krun (brutal_init bps dis) l in
+  b_pacer b = set_mds (prun pacer_init (ksends_of (brutal_init bps dis) l)) (b_mds b) /\
+  bytes_of (ksends_of (brutal_init bps dis) l) = released l.
+Proof. exact pacer_of_krun_init. Qed.
+Print Assumptions C11_every_release_counts.
